@@ -47,6 +47,7 @@ def srcSeq : Src α → LSeq α
   | .chain xss => ⟨xss.flatten, []⟩
   | .const v => ⟨[], [v]⟩
   | .obj _ => ⟨[], []⟩
+  | .mixed pre _ post => ⟨pre ++ post, []⟩
 
 /-- the sequence an argument denotes; an existing Stream is moved, a hub gives one use -/
 def specSrc (sp : SPool α) : Src α → Except String (SPool α × LSeq α)
@@ -54,6 +55,12 @@ def specSrc (sp : SPool α) : Src α → Except String (SPool α × LSeq α)
     match sp[j]? with
     | some (.stream s) => .ok (sp.set j .dead, s)
     | some (.hub s (u + 1)) => .ok (sp.set j (.hub s u), s)
+    | some (.hub _ 0) => .error "IndexError"
+    | _ => .error "noobj"
+  | .mixed pre j post =>
+    match sp[j]? with
+    | some (.stream s) => .ok (sp.set j .dead, ((LSeq.fin pre).append s).append (LSeq.fin post))
+    | some (.hub s (u + 1)) => .ok (sp.set j (.hub s u), ((LSeq.fin pre).append s).append (LSeq.fin post))
     | some (.hub _ 0) => .error "IndexError"
     | _ => .error "noobj"
   | s => .ok (sp, srcSeq s)
